@@ -6,7 +6,9 @@ import AbraModel.Drv.Util
                   `Z:<b>`               literal b parses to ±0.0
      line         `L:<label>` | `I:<file>:<lineno>:<func>:<instr>`
      instr        Rust `Debug` of assembly::Instr without blanks, string payloads as `$<hex>` tokens
-   answer: the resulting lines in the same format, or `crash` / `need-fold`.
+   answer: the resulting lines in the same format, or `need-fold`.
+   `opt expand <NI:int>* <NF:lit>* <line>*`: `expand_immediates` with the listed constants NOT fitting a 16-bit index;
+     answer: one word per instruction, `Name` or `Name:<constant>` (labels dropped)
    `opt run …` is not offered: execution is compared implementation-vs-implementation by the harness. -/
 namespace Abra.Drv.OptD
 open Abra.Asm Abra.Opt Abra.Drv
@@ -188,6 +190,8 @@ def floatOpShort : List (String × FloatOp) :=
 structure OptReq where
   folds : List (FloatOp × String × String × String)
   zeros : List String
+  nofitInt : List Int := []
+  nofitFloat : List String := []
   lines : List Line
 
 def parseOptReq : List String → OptReq → Option OptReq
@@ -201,6 +205,11 @@ def parseOptReq : List String → OptReq → Option OptReq
         | none => none
       | _ => none
     else if w.startsWith "Z:" then parseOptReq ws { acc with zeros := (w.drop 2).toString :: acc.zeros }
+    else if w.startsWith "NI:" then
+      match (w.drop 3).toString.toInt? with
+      | some n => parseOptReq ws { acc with nofitInt := n :: acc.nofitInt }
+      | none => none
+    else if w.startsWith "NF:" then parseOptReq ws { acc with nofitFloat := (w.drop 3).toString :: acc.nofitFloat }
     else match parseLine w with
       | some l => parseOptReq ws { acc with lines := l :: acc.lines }
       | none => none
@@ -212,8 +221,25 @@ def envOf (r : OptReq) : FoldEnv :=
 
 def renderPassRes : PassRes → String
   | .ok ls => if ls.isEmpty then "-" else " ".intercalate (ls.map renderLine)
-  | .crash => "crash"
   | .needFold => "need-fold"
+
+def instrName (i : Instr) : String :=
+  match (renderInstr i).splitOn "(" with
+  | n :: _ => match n.splitOn "{" with
+    | m :: _ => m
+    | [] => n
+  | [] => "?"
+
+/-- `Name` or `Name:<constant>` for pushes of numbers and immediate-operand instructions -/
+def renderVm (i : Instr) : String :=
+  match i with
+  | .pushInt n => s!"PushInt:{n}"
+  | .pushFloat f => s!"PushFloat:{f}"
+  | .storeOffsetImm _ imm => s!"StoreOffsetImm:{imm}"
+  | .binIImm _ _ _ imm => s!"{instrName i}:{imm}"
+  | .binFImm _ _ _ imm => s!"{instrName i}:{imm}"
+  | .arrayPushIntImm _ imm => s!"ArrayPushIntImm:{imm}"
+  | i => instrName i
 
 def handle : List String → String
   | mode :: ws =>
@@ -223,6 +249,13 @@ def handle : List String → String
       | "pass" => renderPassRes (pass (envOf r) r.lines)
       | "full" => renderPassRes (optimize (envOf r) r.lines)
       | "echo" => renderPassRes (.ok r.lines)
+      | "expand" =>
+        let pool : Pool := { fitsInt := fun n => !r.nofitInt.contains n, fitsFloat := fun f => !r.nofitFloat.contains f }
+        let out := (expandImmediates pool r.lines).filterMap fun l =>
+          match l with
+          | .instr i _ => some (renderVm i)
+          | .label _ => none
+        if out.isEmpty then "-" else " ".intercalate out
       | _ => "bad-op"
     | none => "bad-op"
   | _ => "bad-op"
